@@ -172,7 +172,13 @@ def run(ctx, rep) -> None:
     from .c05 import merged_dims_of_the_viewed_tensor
 
     rep.attempt("merged_dims_of_the_viewed_tensor", merged_dims_of_the_viewed_tensor, ctx, rep, "C07.1")
-    rep.attempt("sibling_pairs", sibling_pairs, ctx, rep, "C07.2", [(FSDP, HSDP, m) for m in ("_merge_and_block_parameters", "_merge_and_block_gradients", "_split_tensor_block_recovery", "_construct_composable_block_ids")] + [(DIST, FSDP, "update_params"), (DIST, FSDP, "merge_and_block_gradients")])
+    # the FSDP / HSDP copies of the blocking and recovery code are each decided directly (merged dims of the viewed tensor, same
+    # recipe for parameters and gradients, selector rules, view rules, recovery semantics by interpretation); of the text
+    # comparison only the small id helper and the two step-path methods remain
+    rep.attempt("sibling_pairs", sibling_pairs, ctx, rep, "C07.2", [(FSDP, HSDP, "_construct_composable_block_ids"), (DIST, FSDP, "update_params"), (DIST, FSDP, "merge_and_block_gradients")])
+    from .c15 import recovery_semantics
+
+    rep.attempt("recovery_semantics", recovery_semantics, ctx, rep, "C07.2", [FSDP, HSDP])
     rep.attempt("recovery_rules", recovery_rules, ctx, rep, "C07.2", [FSDP, HSDP])
     from .c15 import slab_arithmetic
 
